@@ -9,6 +9,7 @@ import (
 	"os"
 	"strings"
 	"sync"
+	"sync/atomic"
 	"syscall"
 	"time"
 
@@ -281,6 +282,29 @@ func runPeer(rec *Rec, sc *PeerScenario, n int) {
 					return ended(sl) && (se > 0 || st.Path == "dial" && st.Cv == "reject") && srv.CountSession()+cli.CountSession() == countUp(slots)
 				})
 				time.Sleep(500 * time.Microsecond)
+			}
+			// the first use of a session's swap, made by several goroutines at the same moment (swap access is among
+			// the operations documented as safe for concurrent use); every entry stored must be there afterwards
+			for _, sx := range []erpc.Session{sl.cs, sl.ss} {
+				if sx == nil || !sx.Health() {
+					continue
+				}
+				var wg sync.WaitGroup
+				var gate int32
+				for g := 0; g < 4; g++ {
+					wg.Add(1)
+					go func(g int) {
+						defer wg.Done()
+						for atomic.LoadInt32(&gate) == 0 {
+						}
+						sx.Swap().Store(fmt.Sprintf("k%d", g), g)
+					}(g)
+				}
+				atomic.StoreInt32(&gate, 1)
+				wg.Wait()
+				if n := sx.Swap().Len(); n != 4 {
+					rec.Emit("SwapLost", "slot", st.Slot, "len", n)
+				}
 			}
 			rec.Emit("Established", "slot", st.Slot, "srvhas", sl.ss != nil, "clihas", sl.cs != nil)
 		case "dialclosed":
